@@ -12,8 +12,8 @@ good sibling), and sent to a capturing resolver over every input route:
   variable routes   $v: T -> f(x: $v) | $v: T = GOOD with a payload | @d(x: $v) | l(x: [$v]) | b(x: {v: $v})
   direct calls      coerce_value, value_from_ast, coerce_variable_values + coerce_argument_values
 
-plus presence enumerations (provided / omitted / explicit null / through a provided, null, omitted or
-defaulted variable) for every argument of a 3-argument field (7^3), for the fields of an input object
+plus nullable variables at non-null positions (allowed when a default exists), presence enumerations
+(provided / omitted / explicit null / through a provided, null, omitted or defaulted variable) for every argument of a 3-argument field (7^3), for the fields of an input object
 literal (7^3), for every type with and without argument default, @skip/@include conditions, and
 defaults declared in SDL.  The oracle is mc/ref/coerce.py (spec transliteration) + conforms().
 """
@@ -43,7 +43,7 @@ RULE = (
     "placements (leaf nested 0..k+1 lists deep, beside a null, beside a valid sibling) x the base's value alphabet "
     "(natural values, 32-bit boundaries, integral/non-integral floats, numeric strings, booleans, null, one value of every "
     "other JSON kind; for the input object: 3^k presence combinations, every field x its alphabet, unknown fields, wrong kinds), "
-    "plus literal-only leaves, 7^3 argument-presence and 7^3 object-literal-presence combinations, per-type argument "
+    "plus literal-only leaves, nullable variables (null / unset / value) at every non-null-typed position that has a default, 7^3 argument-presence and 7^3 object-literal-presence combinations, per-type argument "
     "presence with/without default, @skip/@include conditions, SDL-declared defaults; evaluation = one run of the "
     "implementation on one route compared with the reference; non-trivial = distinct (type, value, route-independent) "
     "case for which the reference accepts on some route (so the resolver must run and its kwargs are compared) or "
@@ -59,7 +59,7 @@ BOUNDS = {
     "quick": {"wrapper_depth": 2, "in_presence_fields": 3, "arg_presence": "7^3", "object_literal_presence": "7^3", "sdl_default_depth": 1},
     "thorough": {"wrapper_depth": 3, "in_presence_fields": 5, "arg_presence": "7^3", "object_literal_presence": "7^3", "sdl_default_depth": 2},
 }
-TIME_CAP = {"quick": 150, "thorough": 1500}
+TIME_CAP = {"quick": 300, "thorough": 1500}
 
 ALL_SHAPES = V.shapes(3)
 TYPES = [(b, s) for s in ALL_SHAPES for b in V.BASES]
@@ -125,6 +125,8 @@ def cases(tier):
                 for j in range(0, V.list_depth(s) + 1):
                     yield {"k": "lit", "base": b, "shape": s, "nest": j, "tree": tree, "focus": [b, fk]}
             yield {"k": "argpres", "base": b, "shape": s}
+            if s.endswith("N"):
+                yield {"k": "nnvar", "base": b, "shape": s}
     for combo in _product(ARG_STATES, 3):
         yield {"k": "args", "states": list(combo)}
     for combo in _product(ARG_STATES, 3):
@@ -620,14 +622,20 @@ def _route_unusable(b, s, route):
 
 
 def _dedupe(out):
-    seen = set()
-    res = []
+    """one entry per class; the detail of the first route, plus the names of the other routes."""
+    first = {}
+    order = []
+    more = {}
     for c, d in out:
-        if c in seen:
+        if c in first:
+            r = d.split(" ")[1] if d.startswith("route ") else None
+            if r and r not in more[c]:
+                more[c].append(r)
             continue
-        seen.add(c)
-        res.append((c, d))
-    return res
+        first[c] = d
+        more[c] = []
+        order.append(c)
+    return [(c, first[c] + ((" [same class also on: %s]" % ", ".join(more[c])) if more[c] else "")) for c in order]
 
 
 _GQL_CACHE = {}
@@ -800,6 +808,48 @@ def eval_argpres(case, st=None):
     return _dedupe(out)
 
 
+def eval_nnvar(case, st=None):
+    """
+    A *nullable* variable used at a non-null position (allowed when the position or the variable has
+    a default): explicit null must be refused, not handed to the resolver.
+    """
+    m = _model()
+    schema, argdefs = _schema()
+    b, s = case["base"], case["shape"]
+    i = TINDEX[(b, s)]
+    t = V.mk_type(b, s)
+    tn = R.nullable(t)
+    good = _good_value(b, s)
+    good_tree = V.natural_tree(good, t, m)
+    V_ = ["var", "v"]
+    places = [
+        ("fd%d" % i, "query(%s) { fd%d(x: $v) }", None, {"x": V_}),
+        ("f%d" % i, "query(%s) { f%d(x: $v) }", good_tree, {"x": V_}),
+        ("b%d" % i, "query(%s) { b%d(x: {v: $v}) }", good_tree, {"x": ["obj", [["v", V_]]]}),
+        ("d%d" % i, "query(%s) { g @d%d(x: $v) }", good_tree, {"x": V_}),
+    ]
+    if not R.is_list(tn):
+        places.append(("l%d" % i, "query(%s) { l%d(x: [$v]) }", good_tree, {"x": ["list", [V_]]}))
+    out = []
+    for target, tmpl, vdefault, given in places:
+        for state, payload in (("null", {"v": None}), ("unset", {}), ("value", {"v": good})):
+            vd = [["v", tn, vdefault]]
+            text = tmpl % (_render_vardefs(vd)[1:-1], i)
+            ad = argdefs[target]
+            adm = _expect(vd, payload, ad, given, m)
+            impl, stage = run_e2e(text, payload, target)
+            if st is not None:
+                st.n("evaluations")
+                st.n("route:nullable-variable-at-nonnull")
+                st.outcome(("nnvar", impl.kind, stage))
+                st.nt(("nnvar", text, json.dumps(payload, sort_keys=True)))
+            v = judge(adm, impl, ad, m)
+            if v is not None:
+                focus = ["any", "%s-variable" % state]
+                out.append((_cls(v[0], focus, "nullable-variable-at-nonnull"), "%s variables=%s: %s" % (text, json.dumps(payload), v[1])))
+    return _dedupe(out)
+
+
 def eval_cond(case, st=None):
     """@skip / @include conditions: a wrong-kind value must not decide whether a resolver runs."""
     m = _model()
@@ -956,6 +1006,8 @@ def evaluate(case, st=None):
         return eval_presence(case, st)
     if k == "argpres":
         return eval_argpres(case, st)
+    if k == "nnvar":
+        return eval_nnvar(case, st)
     if k == "cond":
         return eval_cond(case, st)
     if k == "sdl":
